@@ -168,6 +168,13 @@ def execute(prop, case):
     if matched is not None and case['action'] == 'bulk':
         res.mark = 'M'
         rec['extra'] = all(('mark' in o.__dict__) == (any(o is m for m in matched)) for o in objs)
+    elif matched is not None and case['action'] == 'remove' and case['source'] == 'preds':
+        # remove_all on a dependency list: exactly the matching tasks leave the list (and lose the hub as successor), and are returned
+        ret = src.remove_all(**kwargs)
+        left = list(hub.predecessors)
+        want = [o for o in src_list if not any(o is m for m in matched)]
+        rec['extra'] = [id(o) for o in ret] == [id(o) for o in matched] and [id(o) for o in left] == [id(o) for o in want] and \
+            all(any(s is hub for s in o.successors) == (not any(o is m for m in matched)) for o in src_list)
     elif matched is not None and case['action'] == 'remove' and case['source'] in ('tasks', 'roots'):
         if case['source'] == 'tasks':
             ret = w.remove_all(**kwargs)
